@@ -2,6 +2,7 @@
 // All enumeration / reference models / verdicts live in /verif/vp (Python),
 // except the schedule explorers, which drive real threads and live here.
 mod evalsrv;
+mod hostsrv;
 mod parsesrv;
 mod rcmc;
 mod util;
@@ -13,6 +14,7 @@ fn main() {
     match driver {
         "eval" => evalsrv::main(rest),
         "parse" => parsesrv::main(rest),
+        "host" => hostsrv::main(rest),
         "rcmc" => rcmc::main(rest),
         "parsedump" => parsesrv::debug_dump(&rest[0]),
         _ => {
